@@ -21,7 +21,10 @@ func init() {
 	families["crash"] = runCrash
 }
 
-type kv struct{ k, v []byte }
+type kv struct {
+	k, v []byte
+	del  bool // <key>:DEL  the key is deleted
+}
 
 func parseKVs(s string) []kv {
 	if s == "-" {
@@ -30,7 +33,11 @@ func parseKVs(s string) []kv {
 	var out []kv
 	for _, p := range strings.Split(s, ",") {
 		q := strings.Split(p, ":")
-		out = append(out, kv{unhex(q[0]), unhex(q[1])})
+		if q[1] == "DEL" {
+			out = append(out, kv{k: unhex(q[0]), del: true})
+			continue
+		}
+		out = append(out, kv{k: unhex(q[0]), v: unhex(q[1])})
 	}
 	return out
 }
@@ -44,7 +51,11 @@ func crashChildMain(args []string) {
 			os.Exit(3)
 		}
 		for _, e := range parseKVs(args[2]) {
-			st.Set(string(e.k), e.v)
+			if e.del {
+				st.Delete(string(e.k))
+			} else {
+				st.Set(string(e.k), e.v)
+			}
 		}
 	case "dbsave":
 		d, err := db.NewDatabase(args[1])
@@ -52,7 +63,13 @@ func crashChildMain(args []string) {
 			os.Exit(3)
 		}
 		for _, e := range parseKVs(args[2]) {
-			d.SaveEntity(db.NewEntity(string(e.k), e.v, privOf(e.v)))
+			if e.del {
+				if ent, err := d.EntityWithName(string(e.k)); err == nil {
+					d.DeleteEntity(ent)
+				}
+			} else {
+				d.SaveEntity(db.NewEntity(string(e.k), e.v, privOf(e.v)))
+			}
 		}
 	case "cfg":
 		startTransport(args[1], args[2])
